@@ -1,5 +1,5 @@
 # replay of a bounded stand-in violation (C16): re-run native/c16_states.py
 import sys
-print('n=2 pure=True cat: quad_expectation(0,0.0) = [-0.02294, 0.59562] on bosonic, [-0.02294, 1.93709] on fock')
+print('bosonic n=2 pure=True cat-complex: parity_expectation([0]) = 0.19557 but sum_n (-1)^n p(n) from reduced_dm = 0.18871')
 print('REPLAY-VIOLATION')
 sys.exit(1)
